@@ -15,7 +15,7 @@ def mc_timer_driver(v, wd, tier):
 
 
 def family(v, wd, prop, name, tasks, progs, max_t, spawn="both", mc=True, what="", module="Gen_AsyncMod", tol=0, tick_ns=1_000_000_000,
-           pe_forward=False, heap=False):
+           pe_forward=False, heap=False, join_modes=False):
     consts = f"Tasks <- TasksN NT = {tasks} Progs <- {progs} MaxT = {max_t} Tol = {tol}"
     beh = os.path.join(wd, f"beh_{name}.txt")
     props = "PROPERTIES NoAdvanceWhileRunnable TimeMonotone\n" if mc else ""
@@ -27,7 +27,7 @@ def family(v, wd, prop, name, tasks, progs, max_t, spawn="both", mc=True, what="
     v.add_tlc(f"AsyncMod contract [{name}]", g, consts)
     shards, total = vlib.shard_lines(beh, wd, vlib.NCPU, prefix=f"sh_{name}_")
     log(f"[{prop}] Gen_AsyncMod[{name}]: {total} program assignments in {g.wall:.1f}s")
-    extra = ["--tick-ns", str(tick_ns)] + (["--pe-forward", "1"] if pe_forward else [])
+    extra = ["--tick-ns", str(tick_ns)] + (["--pe-forward", "1"] if pe_forward else []) + (["--join-modes", "1"] if join_modes else [])
     cmds = [["asyncm", "replay", s, "--max-t", str(max_t), "--spawn", spawn] + extra for s in shards if os.path.getsize(s) > 0]
     outs = vlib.run_vh_parallel(cmds)
     if heap:
@@ -38,7 +38,8 @@ def family(v, wd, prop, name, tasks, progs, max_t, spawn="both", mc=True, what="
     v.cov["traces_validated_against_impl"] += int(tot.get("replays", 0))
     v.cov["evaluations"] += int(tot.get("checks", 0))
     v.cov["distinct_nontrivial"] += int(tot.get("nontrivial", 0))
-    v.cov.setdefault("gen_runs", []).append({"family": name, "programs": total, "what": what, "constants": consts})
+    v.cov.setdefault("gen_runs", []).append({"family": name, "programs": total, "what": what, "constants": consts,
+                                             "classes": tot.get("extra", {})})
     if len(v.cov["samples"]) < 2:
         v.cov["samples"].extend(tot.get("samples", [])[:1])
     seen = set()
@@ -51,9 +52,24 @@ def family(v, wd, prop, name, tasks, progs, max_t, spawn="both", mc=True, what="
         # scenario predicate for the recorded spawn_local finding: more than 61 polls of spawn_local tasks become
         # runnable within one instant (LocalSet's fixed per-tick budget)
         many = int(m.get("tasks", 0)) > 50
+        # scenario predicate for F-C06-2: the task concerned completes more than 128 awaits within one instant, i.e. in one
+        # poll (tokio's cooperative budget of 128 operations per poll forces a yield that des does not wait for)
+        def longest_run(obs):
+            best = cur = 0
+            last = None
+            for e in obs:
+                key = (e.get("t"), e.get("inc"))
+                cur = cur + 1 if key == last else 1
+                last = key
+                best = max(best, cur)
+            return best
+        exp_obs = (m.get("behaviour") or {}).get("obs") or []
+        ti = int(m.get("task", 0)) - 1
+        budget = 0 <= ti < len(exp_obs) and longest_run(exp_obs[ti]) > 128
         v.add_violation(f"[{name}{', spawn_local' if local else ''}] {m.get('field')}: task {m.get('task')} expected {json.dumps(m.get('expected'))} "
                         f"got {json.dumps(m.get('got'))}", {k: x for k, x in m.items() if k != "got_obs"},
-                        {"suite": "asyncm", "spawn_local": local, "more_than_61_local_polls_in_one_instant": local and many})
+                        {"suite": "asyncm", "spawn_local": local, "more_than_61_local_polls_in_one_instant": local and many,
+                         "more_than_128_awaits_completed_in_one_poll": bool(budget)})
     if int(tot.get("mismatch_count", 0)):
         v.cov["replay_mismatches"] = v.cov.get("replay_mismatches", 0) + int(tot["mismatch_count"])
 
@@ -105,6 +121,9 @@ def c06(tier):
     family(v, wd, "C06", "chan_pe", 2, "ProgsChan", 14, mc=False, pe_forward=True,
            what="module-to-task messages forwarded by a processing element that consumes them (the handler never runs)")
     family(v, wd, "C06", "drain", 3, "ProgsDrain", 6, mc=False, what="40 sends in one poll, 40 receives in one poll", module="Gen_AsyncFam")
+    for k in (128, 129, 300):
+        family(v, wd, "C06", f"drain{k}", 3, f"ProgsDrain{k}", 6, mc=False, module="Gen_AsyncFam",
+               what=f"{k} receives in one poll (tokio's cooperative budget is 128 operations per poll)")
     family(v, wd, "C06", "chan", 2, "ProgsChan", 14, what="small exhaustive menus with channels")
     v.cov["rule"] = ("families in which many polls become runnable inside one simulated instant: wake chains (task i wakes i+1), fan-out, many "
                      "timers with one deadline, one poll doing 40 channel operations; N up to 100 (thorough 2000); spawned with tokio::spawn "
